@@ -529,9 +529,24 @@ func (srw *streamReaderWithConvert[T]) toStream() *stream[T] {
 
 		for {
 			verifYield(10)
-			out, err := srw.recv()
+			// not srw.recv(): it loops over dropped (ErrNoValue) items without ever looking at
+			// ret.closed, so a converter that drops everything would hide the close from the source.
+			in, err := srw.sr.recvAny()
 			if err == io.EOF {
 				break
+			}
+
+			var out T
+			if err == nil {
+				out, err = srw.convert(in)
+				if err != nil && errors.Is(err, ErrNoValue) {
+					select {
+					case <-ret.closed:
+						return
+					default:
+						continue
+					}
+				}
 			}
 
 			closed := ret.send(out, err)
